@@ -5,19 +5,35 @@ import (
 	"d2v/harness/semlib"
 )
 
-// C10: core-fragment programs (real parser's AST + compiled graph) for the reference interpreter, and differential programs.
+// C10: core-fragment programs (real parser's AST + compiled graph) for the reference interpreter, and differential
+// programs (base; base + null; base + null + re-declaration; base + re-declaration; base + case-twin re-declaration).
 func main() { hl.Main("C10", run) }
+
+func countFeat(c *hl.Ctx, g *semlib.G) {
+	for k, v := range g.Feat {
+		if v > 0 {
+			c.Count("feat:" + k)
+		}
+	}
+}
 
 func run(c *hl.Ctx) error {
 	if cs := c.ReplayCase(); cs != nil {
 		in := cs["in"].(map[string]any)
-		if cc, _ := semlib.CoreCase(in["src"].(string)); cc != nil {
-			c.Emit(cc)
+		src := in["src"].(string)
+		switch cs["k"] {
+		case "diff":
+			// re-observe with the same key
+			c.Emit(semlib.C10DiffKey(src, in["key"].(string)))
+		default:
+			if cc, _ := semlib.CoreCase(src); cc != nil {
+				c.Emit(cc)
+			}
 		}
 		return nil
 	}
 	r := c.Rand()
-	n := c.Pick(4000, 200000)
+	n := c.Pick(3000, 150000)
 	for i := 0; i < n; i++ {
 		g := semlib.New(r, semlib.Opts{MaxDecls: 40, MaxDepth: 4, Underscore: true, QuotedKw: true, ErrSeeds: true, Nulls: true})
 		src := g.Program()
@@ -26,17 +42,25 @@ func run(c *hl.Ctx) error {
 			c.Count("skipped:" + why)
 			continue
 		}
-		for k, v := range g.Feat {
-			if v > 0 {
-				c.Count("feat:" + k)
-			}
-		}
+		countFeat(c, g)
 		if _, bad := cc["out"].(map[string]any)["err"]; bad {
-			c.Count("outcome:error")
+			c.Count("core:outcome:error")
 		} else {
-			c.Count("outcome:ok")
+			c.Count("core:outcome:ok")
 		}
 		c.Emit(cc)
+	}
+	m := c.Pick(1500, 60000)
+	for i := 0; i < m; i++ {
+		g := semlib.New(r, semlib.Opts{MaxDecls: 25, MaxDepth: 4, Underscore: true, QuotedKw: i%2 == 0, ErrSeeds: false, Nulls: i%3 != 0, EdgeMapUnderscore: i%5 == 0})
+		src := g.Program()
+		dc := semlib.C10Diff(r, src)
+		if dc == nil {
+			c.Count("diff:skipped")
+			continue
+		}
+		c.Count("diff:case")
+		c.Emit(dc)
 	}
 	return nil
 }
